@@ -108,4 +108,45 @@ partial def showVals : Vals → List String
   | .cons v vs => showVal v :: showVals vs
 end
 
+/-! ### parser for the same S-expression (driver op `enc`) -/
+
+def takeWhileC (p : Char → Bool) : List Char → List Char × List Char
+  | [] => ([], [])
+  | c :: cs => if p c then let (a, b) := takeWhileC p cs; (c :: a, b) else ([], c :: cs)
+
+mutual
+partial def parseVal : List Char → Option (Val × List Char)
+  | 'T' :: r => some (.bool true, r)
+  | 'F' :: r => some (.bool false, r)
+  | '_' :: r => some (.absent, r)
+  | 'x' :: r =>
+    let (h, r') := takeWhileC (fun c => (hexVal c).isSome) r
+    (ofHexChars h).map fun b => (.raw b, r')
+  | '[' :: ']' :: r => some (.vec .nil, r)
+  | '[' :: r => (parseVals r ']').map fun (vs, r') => (.vec vs, r')
+  | '(' :: r =>
+    let (d, r') := takeWhileC Char.isDigit r
+    match (String.ofList d).toNat?, r' with
+    | some c, ':' :: ')' :: r'' => some (.obj c .nil, r'')
+    | some c, ':' :: r'' => (parseVals r'' ')').map fun (vs, r3) => (.obj c vs, r3)
+    | _, _ => none
+  | cs =>
+    let (d, r) := takeWhileC Char.isDigit cs
+    if d.isEmpty then none else (String.ofList d).toNat?.map fun n => (.num n, r)
+/-- one or more comma-separated values up to the closing character -/
+partial def parseVals (cs : List Char) (close : Char) : Option (Vals × List Char) :=
+  match parseVal cs with
+  | none => none
+  | some (v, c :: r) =>
+    if c == close then some (.cons v .nil, r)
+    else if c == ',' then (parseVals r close).map fun (vs, r') => (.cons v vs, r')
+    else none
+  | some (_, []) => none
+end
+
+def parseValue (s : String) : Option Val :=
+  match parseVal s.toList with
+  | some (v, []) => some v
+  | _ => none
+
 end TdModel.C21
